@@ -131,6 +131,8 @@ def check(run):
                        "side (process_reaction); that RDKit's molecule is independent of the spelling is its own contract and only exercised by the stand-in")
     from checks.props import pipeline_common as PC
     PC.deductive(run)
+    from checks import crosscheck
+    crosscheck.bounded_part(run, PC.MODULES, ["CheckCarbonBalance.process_reaction", "RSMIComparator.compare_dicts"])
     rnd = random.Random(run.seed)
     pool = list(BASE) + ["CC.O>>CC.[H][H]", "C=CC.[H][H]>>CCC.[H][H]"] + [r for r in P.validation_reactions(40 if run.tier == "quick" else 500, seed=run.seed)]
     fails, marker_fails, cases, det = [], [], 0, 0
